@@ -98,7 +98,13 @@ func trunc(s string, n int) string {
 
 // goBuild reports why the Go toolchain rejects the packages (incl. their tests, which staticcheck lints too), or "".
 func goBuild(dir string, patterns ...string) string {
-	for _, args := range [][]string{{"build"}, {"test", "-count=1", "-vet=off", "-run", "^$"}} {
+	out, err := os.MkdirTemp("", "c03-build-")
+	if err != nil {
+		return err.Error()
+	}
+	defer os.RemoveAll(out)
+	// -o <dir>/ keeps binaries of main packages out of the source tree
+	for _, args := range [][]string{{"build", "-o", out + "/"}, {"test", "-count=1", "-vet=off", "-run", "^$"}} {
 		cmd := exec.Command("go", append(args, patterns...)...)
 		cmd.Dir = dir
 		out, err := cmd.CombinedOutput()
